@@ -28,7 +28,9 @@ impl<'b, A: Elem, B: Elem> VSlot<'b, A, B> {
     }
     pub fn check_promise(&self, ctx: &mut Ctx, what: &str) {
         if std::mem::size_of::<A>() > 0 && self.s.capacity() < self.promised {
-            ctx.v("C13", format!("after {what} the capacity is {} although an earlier reserve/with_capacity promised room for {} elements and nothing shrank the vector since", self.s.capacity(), self.promised));
+            let m = format!("after {what} the capacity is {} although an earlier reserve/with_capacity promised room for {} elements and nothing shrank the vector since", self.s.capacity(), self.promised);
+            ctx.v("C18", m.clone());
+            ctx.v("C13", m);
         }
     }
 }
